@@ -391,10 +391,10 @@ def check_counts(prop, tier):
     tid = 0
     inputs = set()
 
-    def flush():
+    def flush(workers=16, heap_mb=2048):
         if not traces:
             return
-        verd, res = vlib.judge(traces, [prop], workers=16)
+        verd, res = vlib.judge(traces, [prop], workers=workers, heap_mb=heap_mb)
         R.add_tlc(res)
         R.cov['traces_validated_against_impl'] += len(traces)
         for i, fails in verd.items():
@@ -448,10 +448,19 @@ def check_counts(prop, tier):
         traces.append(Nt)
         meta[tid] = (w['blt'], dict(w['options']), lp, T)
     R.cov['witness_inputs_of_listed_findings_and_repairs'] = nwit
-    for i in range(nprof):
-        shape = pick_shape(rng, MIX[prop])
-        pr = make_profile(rng, shape, prop)
-        if (prop == 'C08' and rng.random() < 0.4) or (prop == 'C02' and rng.random() < 0.2) or (prop == 'C04' and rng.random() < 0.12):
+    extra_profiles = []
+    if prop in ('C01', 'C02', 'C06'):
+        extra_profiles = [('manycands', gen.manycandsprofile(rng)) for _ in range(1 if tier == 'quick' else 6)]
+    for i in range(nprof + len(extra_profiles)):
+        if i >= nprof:
+            flush()                          # the 260-candidate traces are judged on their own (few workers, large heap)
+            shape, pr = extra_profiles[i - nprof]
+        else:
+            shape = pick_shape(rng, MIX[prop])
+            pr = make_profile(rng, shape, prop)
+        if i >= nprof:
+            pass
+        elif (prop == 'C08' and rng.random() < 0.4) or (prop == 'C02' and rng.random() < 0.2) or (prop == 'C04' and rng.random() < 0.12):
             pr = gen.randprofile(rng, wd=True, eq=True, maxc=6, maxlines=8)
         if prop == 'C18' and i % 3 == 0 and pr['nc'] >= 3:
             # a ballot file may name two candidates alike: every one of them still has his own line in the record
@@ -466,8 +475,10 @@ def check_counts(prop, tier):
         for rule in rules:
             if pr.get('eqlines') and rule not in ('meek', 'warren') and prop != 'C04':
                 continue
+            if shape == 'manycands' and rule not in ('cfer', 'cfer-batch', 'wigm-prf-batch', 'mpls', 'wigm'):
+                continue
             for opts, lp in configs_for(rule, rng, shape, all_=(tier == 'thorough' and i % 5 == 0)):
-                budget = 10
+                budget = 10 if shape != 'manycands' else 40
                 T = drive.run_count(blt, opts, lowprec=lp, iters=(prop == 'C08'), budget=budget,
                                     want_ballots=(prop in ('C02', 'C06', 'C01')), denote=pr)
                 R.cov['evaluations'] += 1
@@ -500,6 +511,8 @@ def check_counts(prop, tier):
                     R.sample(dict(blt=blt, options=opts, lowprec=lp, actions=[a['msg'] for a in T['acts']][:12]))
                 if len(traces) >= BATCH:
                     flush()
+        if shape == 'manycands':
+            flush(workers=3, heap_mb=8192)
     if prop == 'C02':
         # equal-ranked first preferences under exact arithmetic (tiny profiles: rational Meek is slow)
         for j in range(6 if tier == 'quick' else 60):
